@@ -462,3 +462,12 @@ package trace
 //@   requires bsp != nil && sd != nil
 //@   assert@call batchSpanProcessor.enqueueDrop#* : !bsp.o.BlockOnQueueFull && $arg2 == sd
 //@   assert@call batchSpanProcessor.enqueueBlockOnQueueFull#* : bsp.o.BlockOnQueueFull && $arg2 == sd
+
+// ForceFlush: the flush marker is enqueued with the BLOCKING enqueue in every mode (it must never be dropped: the wait for
+// "everything queued before me has been batched" hangs on it), it is a forceFlushSpan, and the export that follows goes
+// through exportSpans; nothing is enqueued or exported once stopped is set or without an exporter
+//@ func (bsp *batchSpanProcessor) ForceFlush(ctx context.Context) (err error)
+//@   prop C01
+//@   unchecked frame,no-panic channels, spawned goroutine
+//@   requires bsp != nil && ctx != nil
+//@   assert@call batchSpanProcessor.enqueueBlockOnQueueFull#1 : typeis($arg2, "forceFlushSpan") && bsp.stopped.v == 0 && bsp.e != nil
